@@ -152,7 +152,7 @@ def jobs(tier, seed, excluded=()):
         budget, nparts, tmo = 600, 4, 400
     out = []
     for door in ("api", "file"):
-        out += state_jobs("C06", "vk.props.c06", "wellformed", trees, dom, budget, nparts, tmo, rng, {"door": door}, tag=door)
+        out += state_jobs("C06", "vk.props.c06", "wellformed", trees, dom, budget, nparts, tmo, rng, {"door": door}, tag=door, fix_first="bools")
     # histories: one more operation on every option, with all caches filled before it
     from .common import op_value_bounds
 
@@ -162,5 +162,5 @@ def jobs(tier, seed, excluded=()):
         for t, sl in enumerate(slots):
             if sl.kind == "pick":
                 continue
-            out += state_jobs("C06", "vk.props.c06", "wellformed", [tid], dom, budget // 4, 1, tmo, rng, {"door": "api", "target": t, "odom": odom.to_json()}, tag="op-" + sl.name, extra_params=[("ok", "int"), ("ov", "int")], extra_pre="0 <= ok <= 3 and " + op_value_bounds(sl, odom), extra_samples=lambda r: [r.randint(0, 3), 0], must_free=lambda a, b, t=t: [b[t].name])
+            out += state_jobs("C06", "vk.props.c06", "wellformed", [tid], dom, budget // 4, 1, tmo, rng, {"door": "api", "target": t, "odom": odom.to_json()}, tag="op-" + sl.name, extra_params=[("ok", "int"), ("ov", "int")], extra_pre="0 <= ok <= 3 and " + op_value_bounds(sl, odom), extra_samples=lambda r: [r.randint(0, 3), 0], must_free=lambda a, b, t=t: [b[t].name], fix_first="bools")
     return out
